@@ -1,6 +1,7 @@
 """C07 - deserialization is total; implicit truncation / zero extension (R-codec decoder + M-bitio reader shadow)."""
 from __future__ import annotations
 
+import hashlib
 import random
 import shutil
 
@@ -24,7 +25,7 @@ ASSUMPTIONS = [
     "R-codec decoder is the trusted reference for accept/reject and for the decoded value",
     "capacities are serdes-sized (<= 300): hostile length prefixes of huge arrays are a resource question, not this property",
 ]
-MIN_MONITORS = {"outcome": 60000, "fixed-point": 15000, "truncation": 4000, "zero-extension": 30000,
+MIN_MONITORS = {"buffer-forms": 20000, "outcome": 60000, "fixed-point": 15000, "truncation": 4000, "zero-extension": 30000,
                 "bitio-read": 1000000, "bitio-subreader": 10000, "reject-array-length": 300, "reject-union-tag": 300,
                 "reject-delimiter-header": 300}
 THOROUGH_MIN_SCALE = 8
@@ -103,6 +104,16 @@ def check_bytes(ctx, pydsdl, cd, T, idx, b, header, kind, case):
                     ctx.violation("C07/not-fixed-point", "%r -> %s -> %r" % (obj, b2.hex(), obj2), case)
             except Exception as ex:  # noqa
                 ctx.violation("C07/not-fixed-point", "re-serializing %r failed: %r" % (obj, ex), case)
+    # the same bytes in another buffer type, and as a window into a larger buffer whose surroundings are not part of b
+    junk = hashlib.sha256(b).digest()
+    ctx.mon("buffer-forms")
+    for form, data in (("bytearray", bytearray(b)), ("memoryview", memoryview(b)),
+                       ("memoryview-window", memoryview(junk[:5] + b + junk[5:])[5:5 + len(b)]),
+                       ("memoryview-window-of-bytearray", memoryview(bytearray(b"\xff" * 3 + b + b"\xff" * 9))[3:3 + len(b)])):
+        ob = outcome_impl(pydsdl, T, data, header)
+        if not same_outcome(oi, ob):
+            ctx.violation("C07/buffer-form", "deserialize(%s, %s) gives %r for bytes but %r for the same bytes as %s" % (T, b.hex(), oi, ob, form), case)
+            break
     # zero extension
     for k in (1, 7, 64):
         ctx.mon("zero-extension")
